@@ -8,8 +8,10 @@ import XgiModel.C06.Lemmas
 namespace Xgi.C06
 open Xgi Xgi.HG
 
-/-- two-way directed incidence: out-memberships pair with tails, in-memberships with heads
-    (field names of `DHG.WFd`, C02/Lemmas.lean; proved there for every reachable directed state) -/
+/-- two-way directed incidence: out-memberships pair with tails, in-memberships with heads — the clauses of
+    `DHG.WFd` (C02/Lemmas.lean) that the views read.  C06/Bridge.lean derives it from `DHG.WFd` (`wfd_of_dhg`),
+    which C02 proves for every reachable directed state; Props/C06.lean (`reachable_wf`, `di_*_reachable`) uses
+    that to state the directed theorems at every reachable state. -/
 structure WFd (s : DiSt) : Prop where
   nodupN : s.nodes.Nodup
   nodupE : s.edges.Nodup
